@@ -67,6 +67,21 @@ CHECKS = {
    text="An honest store builds histories under the simulator (concurrent committers, tx metadata, header v0/v1, deletes, restarts between requests). For sampled pairs trusted tx i <= proven tx j the client-side verification is run on the server's response: DualProof and DualProofV2 must verify against the states acknowledged to the client (completeness) and the per-entry inclusion proofs must verify against the entries hash. A tampering adversary on the response path then alters one aspect per trial — claimed states and ids, every header field of source/target, inclusion/consistency/last-inclusion terms (dropped, extra, flipped, swapped, duplicated), TargetBlTxAlh, linear and linear-advance proofs, swapped source/target, entry key/value/position — and a forked server (shares a prefix of the history, then diverges) answers instead of the honest one. Oracle: acceptance implies truth — a response that verifies must claim exactly the history's states with the new one extending the trusted one; an altered entry must never verify.",
    note="Store-level verifiers (the same functions pkg/client calls); the pkg/database Verifiable* assembly, pkg/client's verifiedGet flow (references, returned key), SQL/document proofs, state signatures and histories whose binary linking lags by more than one tx are NOT covered by this check.",
    technique="deterministic simulation: seeded histories + tampered/forked response injection vs ledger (acceptance implies truth)"),
+ "C11": dict(
+   level="exploration", design="DESIGN.md §7 C11",
+   text="sql.Engine over the simulated store; one table with indexes on (a), (b), (a,c) created before or after the data; a DML session (upsert, update of indexed columns, delete), index flush/compaction and restart run as tasks while the secondary indexers lag by arbitrary amounts (yield between reading a bulk and inserting it, bulk sizes 1-8); a query task issues metamorphic groups at arbitrary points, also inside an open transaction holding uncommitted changes: the same WHERE clause through the default plan and through every index (USE INDEX ON), ternary-logic partitioning (P, NOT P, P IS NULL partition the table), ORDER BY ASC/DESC (same multiset, sorted with NULL first).",
+   note="One table, no joins / GROUP BY / subqueries / LIMIT-OFFSET / historical queries yet; predicates from a fixed family of 12 shapes with seeded constants.",
+   technique="deterministic simulation: metamorphic query groups under seeded indexer lag, maintenance and restarts"),
+ "C12": dict(
+   level="exploration", design="DESIGN.md §7 C12",
+   text="2-4 concurrent SQL sessions (autocommit statements and multi-statement transactions) issue INSERT / UPSERT / INSERT ON CONFLICT DO NOTHING / UPDATE (also of the unique column) / DELETE with values that violate PRIMARY KEY, UNIQUE, NOT NULL, VARCHAR length and CHECK constraints at a raised rate, a DDL task may create the unique index while they run, an auto-increment table is filled concurrently. A checker task during the run, and the harness after it and after a restart, scans the committed tables: no duplicate primary key, no duplicate value in the unique index, no NULL in NOT NULL columns, lengths and CHECK satisfied, scans through every index return the same rows as the primary-key scan, auto-generated keys never handed out twice.",
+   note="Column add/drop/rename are not generated.",
+   technique="deterministic simulation: seeded concurrent sessions, invariant scan of committed tables"),
+ "C13": dict(
+   level="exploration", design="DESIGN.md §7 C13",
+   text="2-4 session tasks run generated explicit transactions (INSERT/UPDATE/DELETE/SELECT, COMMIT or ROLLBACK, SAVEPOINT + ROLLBACK TO SAVEPOINT) over one table, plus an observer outside any transaction. A reference interpreter replays the committed transactions serially in commit order: every in-transaction SELECT must equal interpreter(state before the transaction + own earlier statements), affected-row counts must match, the final table must equal the serial execution (rolled back and failed transactions leave no trace), the observer only ever sees states after a prefix of the committed transactions, and transactions that did not commit saw a committed state plus their own changes.",
+   note="Engine API only: the server-side session transaction manager and the PostgreSQL wire front-end are not driven. DDL inside transactions and RELEASE SAVEPOINT are not generated.",
+   technique="deterministic simulation: seeded concurrent session programs vs reference interpreter, serial replay in commit order"),
 }
 
 NOT_APPLICABLE = [
